@@ -137,7 +137,18 @@ func CreateNodeDataDir(fs vfs.FS, dir string) error {
 	if err := fs.MkdirAll(dir, 0o755); err != nil {
 		return err
 	}
-	return syncDir(fs, filepath.Dir(dir))
+	// The node directory is <base>/<host>/<name>, both <host> and <name> may have just been created,
+	// make both entries durable.
+	parent := filepath.Dir(dir)
+	if err := syncDir(fs, parent); err != nil {
+		return err
+	}
+	if base := filepath.Dir(parent); base != parent {
+		if _, err := fs.Stat(base); err == nil {
+			return syncDir(fs, base)
+		}
+	}
+	return nil
 }
 
 // CleanupNodeDataDir cleans up old data dir (should be called after successful switch).
